@@ -346,7 +346,7 @@ func TestVerifC02XRDDefinition(t *testing.T) {
 	rec := verifkit.New(t, "C02", "definition reconciler: the composite CRD with the derived name")
 	rapid.Check(t, func(t *rapid.T) {
 		dc := xrdCase(t, false)
-		runCase(rec, dc.build, dc.Place, 3, func() any { return dc }, tfail(t))
+		runCase(rec, dc.build, dc.Place, genVisibility().Draw(t, "reads"), 3, func() any { return dc }, tfail(t))
 	})
 }
 
@@ -354,7 +354,7 @@ func TestVerifC02XRDOffered(t *testing.T) {
 	rec := verifkit.New(t, "C02", "offered reconciler: the claim CRD with the derived name")
 	rapid.Check(t, func(t *rapid.T) {
 		dc := xrdCase(t, true)
-		runCase(rec, dc.build, dc.Place, 3, func() any { return dc }, tfail(t))
+		runCase(rec, dc.build, dc.Place, genVisibility().Draw(t, "reads"), 3, func() any { return dc }, tfail(t))
 	})
 }
 
@@ -447,11 +447,11 @@ func TestVerifC02PackageManager(t *testing.T) {
 		stale := rapid.IntRange(0, 2).Draw(t, "staleActive") == 0
 		dc.Site += "/" + fl.kind
 		if stale {
-			runCase(rec, pkgStaleBuild(dc, fl), dc.Place, 2, func() any { return map[string]any{"case": dc, "variant": "stale-active"} }, tfail(t))
+			runCase(rec, pkgStaleBuild(dc, fl), dc.Place, genVisibility().Draw(t, "reads"), 2, func() any { return map[string]any{"case": dc, "variant": "stale-active"} }, tfail(t))
 			return
 		}
 		dc = mkPkg(dc, fl, labelled)
-		runCase(rec, dc.build, dc.Place, 2, func() any { return dc }, tfail(t))
+		runCase(rec, dc.build, dc.Place, genVisibility().Draw(t, "reads"), 2, func() any { return dc }, tfail(t))
 	})
 }
 
@@ -560,7 +560,7 @@ func TestVerifC02RBACProviderRoles(t *testing.T) {
 	rec := verifkit.New(t, "C02", "rbac provider roles reconciler: a ClusterRole with one of the derived names")
 	rapid.Check(t, func(t *rapid.T) {
 		dc := mkRoles(genDerived(t, "rbac-provider-roles"))
-		runCase(rec, dc.build, dc.Place, 2, func() any { return dc }, tfail(t))
+		runCase(rec, dc.build, dc.Place, genVisibility().Draw(t, "reads"), 2, func() any { return dc }, tfail(t))
 	})
 }
 
@@ -568,7 +568,7 @@ func TestVerifC02RBACProviderBinding(t *testing.T) {
 	rec := verifkit.New(t, "C02", "rbac provider binding reconciler: the ClusterRoleBinding with the derived name")
 	rapid.Check(t, func(t *rapid.T) {
 		dc := mkBinding(genDerived(t, "rbac-provider-binding"))
-		runCase(rec, dc.build, dc.Place, 2, func() any { return dc }, tfail(t))
+		runCase(rec, dc.build, dc.Place, genVisibility().Draw(t, "reads"), 2, func() any { return dc }, tfail(t))
 	})
 }
 
@@ -576,6 +576,6 @@ func TestVerifC02RBACDefinitionRoles(t *testing.T) {
 	rec := verifkit.New(t, "C02", "rbac definition reconciler: a ClusterRole with one of the names derived from the XRD")
 	rapid.Check(t, func(t *rapid.T) {
 		dc := mkRBACDef(genDerived(t, "rbac-definition-roles"))
-		runCase(rec, dc.build, dc.Place, 2, func() any { return dc }, tfail(t))
+		runCase(rec, dc.build, dc.Place, genVisibility().Draw(t, "reads"), 2, func() any { return dc }, tfail(t))
 	})
 }
